@@ -107,6 +107,18 @@ PROPS = {
         assumptions=["operands are numbers or variables (the constructors assert this; other kinds are C23's malformed stream)"],
         open=["a global theorem for arbitrary interleavings of several constraints (C19_chain) is carried by the correspondence: every posting order is run"],
     ),
+    "C03": dict(
+        title="reification (closed answers, shared _ variables, relevant constraints)",
+        props_module="PvModel.Props.C03",
+        rule="pure tree programs (1-6 ==/!= atoms over <=3 query + <=2 hidden variables, conde/fresh), half of them with a query variable bound to an "
+             "improper list / nested list / compound of other variables; observable: canonical terms + truth tables of the reported constraints and "
+             "of constraints() per query variable; oracle: closedness of terms and constraints, terms/sharing against an independent Robinson solver "
+             "run on every path, constraints() and is_constrained() against an independent traversal; non-trivial = an answer carries constraints or "
+             "a non-ground term; distinct = distinct case lines",
+        trusted=SEARCH_TRUST,
+        assumptions=[],
+        open=[],
+    ),
     "C01": dict(
         title="unification (State::unify vs unifyF)",
         props_module="PvModel.Props.C01",
